@@ -388,3 +388,35 @@ window1!(c06_w_20, 20);
 window1!(c06_w_22, 22);
 window1!(c06_w_24, 24);
 window1!(c06_w_26, 26);
+ground!(c05_ground_bare_kings, b"4k3/8/8/8/8/8/8/4K3 w - - 0 1");
+ground!(c05_ground_corners, b"7k/8/8/8/8/8/8/K7 b - - 5 6");
+
+/// ground totality cases: malformed or truncated strings must be REJECTED without a panic (every place where the
+/// text can stop: after a complete rank, inside a rank, after the placement, after each later field; plus
+/// over-long ranks, bad letters, bad digits)
+macro_rules! reject {
+    ($name:ident, $text:expr) => {
+        #[kani::proof]
+        #[kani::unwind(97)]
+        fn $name() {
+            let text: &[u8] = $text;
+            assert!(parse_fen(text).is_err(), "VERIF malformed FEN accepted");
+        }
+    };
+}
+reject!(c06_reject_empty, b"");
+reject!(c06_reject_one_rank, b"8");
+reject!(c06_reject_after_rank, b"rnbqkbnr/pppppppp/8/8");
+reject!(c06_reject_seven_ranks, b"4k3/8/8/8/8/8/8");
+reject!(c06_reject_mid_rank, b"4k3/8/8/8/8/8/8/4K");
+reject!(c06_reject_no_turn, b"4k3/8/8/8/8/8/8/4K3");
+reject!(c06_reject_no_rights, b"4k3/8/8/8/8/8/8/4K3 w");
+reject!(c06_reject_no_ep, b"4k3/8/8/8/8/8/8/4K3 w -");
+reject!(c06_reject_no_clocks, b"4k3/8/8/8/8/8/8/4K3 w - -");
+reject!(c06_reject_one_clock, b"4k3/8/8/8/8/8/8/4K3 w - - 0");
+reject!(c06_reject_long_rank, b"4k3/9/8/8/8/8/8/4K3 w - - 0 1");
+reject!(c06_reject_rank_overflow, b"4k3/7pp/8/8/8/8/8/4K3 w - - 0 1");
+reject!(c06_reject_bad_letter, b"4k3/8/8/3x4/8/8/8/4K3 w - - 0 1");
+reject!(c06_reject_trailing, b"4k3/8/8/8/8/8/8/4K3 w - - 0 1 ");
+reject!(c06_reject_ep_rank, b"4k3/8/8/3pP3/8/8/8/4K3 w - d3 0 1");
+reject!(c06_reject_five_digits, b"4k3/8/8/8/8/8/8/4K3 w - - 0 12345");
